@@ -185,6 +185,25 @@ def oneshot_scenario(rng, sid):
     return {"id": sid, "cfg": cfg, "ans": ans, "stim": []}
 
 
+def retry_scenario(rng, sid):
+    """One check whose first attempts fail transiently (so that back-off waits and retries are exercised)."""
+    sc = oneshot_scenario(rng, sid)
+    ids = [a["id"] for a in sc["cfg"]["apps"]]
+    cup = "cup" in sc["cfg"]
+    for i in (1, 2):
+        if rng.random() < 0.85:
+            r = rng.random()
+            if r < 0.4:
+                a = {"cls": rng.choice(["transport", "timeout"])}
+            else:
+                a = resp(rng.choice(BAD_STATUS), xra=rand_xra(rng, 0.15), body={"garbage": rng.choice(GARBAGE)})
+            sc["ans"]["http.uc#%d" % i] = a
+        else:
+            sc["ans"]["http.uc#%d" % i] = rand_uc_answer(rng, ids, cup)
+    sc["ans"]["http.uc#3"] = rand_uc_answer(rng, ids, cup)
+    return sc
+
+
 def rand_pol_next(rng):
     return {"kind": rng.choice(["wall", "mono", "both"]), "dt": rng.choice([60, 3600, 86400]),
             "minwait": rng.choice([[], [], [30], [600]])}
@@ -241,6 +260,131 @@ def start_scenario(rng, sid, rounds=3, ctl_p=0.35, crash_p=0.0):
     return {"id": sid, "cfg": cfg, "ans": ans, "stim": stim}
 
 
+OP_POINTS = ["http.uc", "http.ev", "http.ping", "pol.next", "pol.check", "pol.start", "pol.rbneeded", "pol.rballowed",
+             "inst.plan", "inst.install", "inst.reboot", "st.set", "st.rm", "st.commit", "ev", "idle"]
+
+
+def history_scenario(rng, sid, rounds=6, crashes=2, clock_p=0.0, pings=True):
+    """Continuous mode over several process lifetimes: crashes at arbitrary blocking points, restarts on the
+    surviving storage with embedder presets in every combination, repeated install attempts, reboot waits with pings."""
+    cup = rng.random() < 0.5
+    apps = rand_apps(rng, rng.choice([1, 2, 2, 3]))
+    ids = [a["id"] for a in apps]
+    cfg = {"mode": "start", "apps": apps, "os_version": "1.0"}
+    if cup:
+        cfg["cup"] = {"latest": 1, "hist": [3]}
+    if rng.random() < 0.4:
+        cfg["sys"] = rng.choice(ids)
+    ans = {}
+    stim = []
+    for k in range(1, 4 * rounds):
+        ans["pol.next#%d" % k] = rand_pol_next(rng)
+        pc = rand_pol_check(rng)
+        if rng.random() < 0.5:
+            pc["d"] = "ok"
+        ans["pol.check#%d" % k] = pc
+        ans["pol.rballowed#%d" % k] = rng.random() < 0.4
+    ucb = evb = 0
+    for k in range(1, rounds + 3):
+        n = rand_check_answers(rng, ans, ids, cup, uc_base=ucb, ev_base=evb, k=k)
+        # favour successful installs so that attempt bookkeeping is exercised
+        if rng.random() < 0.6:
+            doc = rand_doc(rng, ids, offer_p=0.8, allow_unknown=False)
+            ans["http.uc#%d" % (ucb + 1)] = resp(200, body={"doc": doc}, xra=rand_xra(rng, 0.2))
+            n = 1
+            ans["inst.plan#%d" % k] = {"ok": ["plan%d" % rng.randint(1, 2)]}
+            ans["pol.start#%d" % k] = "ok"
+            ans["inst.install#%d" % k] = {"results": [rng.choice(["i", "i", "d", "f"]) for _ in range(n_offered(doc))],
+                                          "progress": [0.5] if rng.random() < 0.3 else [], "pmode": "seq"}
+        ucb += n
+        evb += 4
+    for k in range(1, 8):
+        r = rng.random()
+        ans["http.ping#%d" % k] = (resp(200, body={"doc": rand_doc(rng, ids, offer_p=0.0)}, xra=rand_xra(rng, 0.3)) if r < 0.6
+                                  else rand_uc_answer(rng, ids, cup))
+    for n in range(1, 3 * rounds):
+        do = [{"s": "fire", "sel": "for"}, {"s": "fire", "sel": "until"}]
+        if rng.random() < 0.3:
+            do = [{"s": "fire", "sel": "for", "secs": 1800}]
+        if rng.random() < 0.15:
+            do = [{"s": "ctl", "h": 0, "src": rng.choice(["ondemand", "scheduledtask"])}]
+        stim.append({"at": {"p": "idle", "n": n}, "do": do})
+    for _ in range(crashes):
+        p = rng.choice(OP_POINTS)
+        run = {}
+        r = rng.random()
+        if r < 0.5:
+            run["os_version"] = rng.choice(["2.0.0.0", "3.1", "9.9.9.9", "UNKNOWN", "1.0"])
+        if rng.random() < 0.5:
+            # the embedder re-creates the app set; presets in any combination
+            run["apps"] = [dict(a, cohort=rand_cohort(rng), **({"uc": rng.choice([3, 500])} if rng.random() < 0.3 else {}))
+                           for a in apps]
+            for a in run["apps"]:
+                if rng.random() < 0.7:
+                    a.pop("uc", None)
+        stim.append({"at": {"p": p, "n": rng.randint(1, 12 if p not in ("ev", "st.set", "st.rm") else 40)},
+                     "do": [{"s": "crash", "run": run}]})
+    if clock_p and rng.random() < clock_p:
+        for _ in range(rng.choice([1, 2])):
+            p = rng.choice(OP_POINTS)
+            stim.append({"at": {"p": p, "n": rng.randint(1, 10)},
+                         "do": [{"s": "clock", "dw": rng.choice([-100000000, -3600, -1, 1, 3600, 100000000]), "dm": 0}]})
+    return {"id": sid, "cfg": cfg, "ans": ans, "stim": stim}
+
+
+EXTREME_INTS = ["0", "1", "-1", "4294967295", "4294967296", "2147483647", "9223372036854775807", "-9223372036854775808",
+                "1700000000000000", "86400000000", "-5000000"]
+WEIRD_URLS = ["not a url", "", "http://[::1]:8080/x?y=1", "http://h/ path", "https://h:99999/", "http://h/%zz?a=b&c",
+              "/relative", "http://h/a?b#c", "http://user@h/x", "h:1"]
+
+
+def robust_scenario(rng, sid):
+    """C14: extreme stored values, wrong types, clock jumps, odd URLs, arbitrary statuses / headers / bodies."""
+    sc = history_scenario(rng, sid, rounds=3, crashes=rng.choice([0, 1]), clock_p=0.8) if rng.random() < 0.6 \
+        else oneshot_scenario(rng, sid)
+    st = {}
+    keys = ["last_update_time", "server_dictated_poll_interval", "consecutive_failed_update_checks",
+            "consecutive_failed_install_attempts", "update_first_seen_time", "update_finish_time", "install_plan_id",
+            "target_version"] + [a["id"] for a in sc["cfg"]["apps"]]
+    for k in keys:
+        r = rng.random()
+        if r < 0.45:
+            continue
+        if r < 0.8:
+            st[k] = {"i": rng.choice(EXTREME_INTS)}
+        elif r < 0.9:
+            st[k] = {"s": rng.choice(["", "plan1", "1.0", "{}", "{\"cohort\":{},\"user_counting\":{\"ClientRegulatedByDate\":null}}",
+                                       "{\"cohort\":5}", "\u00e9"])}
+        else:
+            st[k] = {"b": True}
+    sc["cfg"]["storage"] = st
+    if rng.random() < 0.25:
+        sc["cfg"]["url"] = rng.choice(WEIRD_URLS)
+    sc["cfg"]["robust"] = True
+    return sc
+
+
+def twins_of(base, op_counts, rng, max_twins=12):
+    """C14 transparency: copies of `base` with every single (and some pairs of) storage operations failing."""
+    ops = []
+    for kind in ("st.set", "st.rm", "st.commit"):
+        for n in range(1, op_counts.get(kind, 0) + 1):
+            ops.append("%s#%d" % (kind, n))
+    sets = [[o] for o in ops]
+    for _ in range(len(ops)):
+        if len(ops) >= 2:
+            sets.append(rng.sample(ops, 2))
+    rng.shuffle(sets)
+    out = []
+    for i, fs in enumerate(sets[:max_twins]):
+        t = {"id": "%s~f%d" % (base["id"], i), "cfg": dict(base["cfg"], twin=True), "ans": dict(base["ans"]),
+             "stim": base["stim"]}
+        for o in fs:
+            t["ans"][o] = "err"
+        out.append(t)
+    return out
+
+
 def batch(seed, n, kinds=("oneshot", "start")):
     rng = random.Random(seed)
     out = []
@@ -249,6 +393,12 @@ def batch(seed, n, kinds=("oneshot", "start")):
         sid = "%s-%d-%d" % (kind, seed, i)
         if kind == "oneshot":
             out.append(oneshot_scenario(rng, sid))
+        elif kind == "retry":
+            out.append(retry_scenario(rng, sid))
+        elif kind == "history":
+            out.append(history_scenario(rng, sid))
+        elif kind == "robust":
+            out.append(robust_scenario(rng, sid))
         else:
             out.append(start_scenario(rng, sid))
     return out
